@@ -69,6 +69,9 @@ pub fn size_strategy(tier: Tier) -> BoxedStrategy<u32> {
         2 => proptest::sample::select(vec![0u32, 1, 2, 7, 8, 1400, 1472, 1473, 2030, 2047, 2048, 2049, 2100, 4096, 8191, 8192, 8193, 16383, 16384, 16385, 32768]),
         1 => 1400u32..9000,
         1 => 9000u32..=top,
+        // the largest datagrams a local application can send at all (65507 bytes minus the 10-byte SOCKS5-UDP header) and
+        // the sizes just below: whole or not at all
+        1 => proptest::sample::select(vec![65300u32, 65400, 65437, 65438, 65450, 65470, 65490, 65496, 65497]),
     ]
     .boxed()
 }
@@ -301,7 +304,8 @@ pub fn exec_once(c: &Case) -> CaseResult {
     let mut fail = check_integrity(&sent, &apps, &targets).err();
     // "reaches the addressed target": a size every path carries must get through within three paced attempts
     if fail.is_none() {
-        let mut missing: Vec<usize> = (0..first).filter(|k| !answered(&sent[*k], &apps)).collect();
+        // only sizes whose delivery is demanded are sent again (a 65 000-byte datagram that a path cannot carry stays lost)
+        let mut missing: Vec<usize> = (0..first).filter(|k| !answered(&sent[*k], &apps) && (c.sends[*k].size as usize) <= MUST_CARRY).collect();
         res.labels.push(format!("first-attempt-loss:{}", if missing.is_empty() { "none" } else { "some" }));
         for attempt in 0..2 {
             if missing.is_empty() {
